@@ -186,6 +186,19 @@ def draw_options(rng, fmt, trajs, ref, meta, work, force=None):
     for extra in (["-v"], ["--silent"], ["--debug"], ["--full_check"], ["--show_full_names"], ["--plot_mode", "zx"]):
         if rng.random() < .08:
             argv += extra
+    # output-only options: plots (made before the exports are written), tables, log files
+    if rng.random() < .15:
+        argv += [["--save_plot", "plot.png"], ["--save_plot", "plot.pdf"], ["--serialize_plot", "plot.ser"],
+                 ["--plot"]][rng.integers(4)]
+        if rng.random() < .5:
+            argv.append("--plot_relative_time")
+        if rng.random() < .5:
+            argv += ["--plot_mode", ["xy", "xz", "yx", "yz", "zx", "zy", "xyz"][rng.integers(7)]]
+        o["plot"] = True
+    if rng.random() < .06:
+        argv += ["--save_table", "table.csv"]
+    if rng.random() < .06:
+        argv += ["--logfile", "log.txt"]
     return argv, o
 
 
@@ -329,7 +342,7 @@ def traj_cli(run, case, rng, work):
         got = C01.outcome_class(res)
     texts = [open(p).read() for p, _ in trajs.values()]
     def active(k, v):
-        if k in ("t_max_diff", "tf_form", "tf_scale", "use_ref"):
+        if k in ("t_max_diff", "tf_form", "tf_scale", "use_ref", "plot"):
             return False
         if isinstance(v, np.ndarray):
             return True
@@ -340,7 +353,7 @@ def traj_cli(run, case, rng, work):
     nontriv = any(active(k, v) for k, v in o.items())
     run.seen(case, core.digest(texts, [a for a in argv if not a.startswith(work)]), nontrivial=nontriv,
              cls=["fmt:" + fmt, "export:" + export] + ["opt:" + k for k, v in o.items() if active(k, v)] +
-             (["opt:ref"] if o["use_ref"] else []) +
+             (["opt:ref"] if o["use_ref"] else []) + (["output-only: plot"] if o.get("plot") else []) +
              (["tf:%s %s" % (o["tf_form"], "Sim(3)" if o["tf_scale"] != 1.0 else "SE(3)")] if o["tf"] is not None else []),
              sample={"argv": [a.replace(work, "<work>") for a in argv], "outcome": got or "ok"})
     try:
@@ -379,6 +392,8 @@ def traj_cli(run, case, rng, work):
                 run.hit("reference exports judged")
     extra = sorted(set(os.listdir(out_dir)) - {st + "." + k for st in list(names) + ([stem(ref[0])] if R is not None else [])
                                                 for k in ("tum", "kitti")})
+    # files of the output-only options (plots, tables, log files) are not exports
+    extra = [f for f in extra if not (f.startswith(("plot", "table")) or f == "log.txt")]
     run.check(not extra, "no unexpected exports", case, "unexpected files written: %s" % extra,
               key="export:unexpected-files", argv=argv)
 
